@@ -38,7 +38,9 @@ OptDTags == Opt(FALSE, FALSE, "", TRUE, FALSE, FALSE, FALSE)
 OptRefsDTags == Opt(FALSE, TRUE, "", TRUE, FALSE, FALSE, FALSE)
 OptExt == Opt(FALSE, FALSE, "", FALSE, TRUE, FALSE, FALSE)
 FeatX(mount, headDigest, refApiSrc, refApiTgt, decline) ==
-  [mount |-> mount, headDigest |-> headDigest, refApiSrc |-> refApiSrc, refApiTgt |-> refApiTgt, decline |-> decline]
+  [mount |-> mount, headDigest |-> headDigest, refApiSrc |-> refApiSrc, refApiTgt |-> refApiTgt, decline |-> decline,
+   leftover |-> FALSE]
+FeatLeftover == [FeatX(TRUE, TRUE, TRUE, TRUE, FALSE) EXCEPT !.leftover = TRUE]   \* referrers API + left-over sha256-<hex> tags
 Feat(mount, headDigest, refApiSrc, refApiTgt) == FeatX(mount, headDigest, refApiSrc, refApiTgt, FALSE)
 FeatDeclineOne == FeatX(TRUE, TRUE, TRUE, TRUE, TRUE)      \* mounts granted except for one blob
 FeatAll == Feat(TRUE, TRUE, TRUE, TRUE)
@@ -56,7 +58,7 @@ InitSets(s, p) == IF p = "samerepo" THEN {{}}
                   ELSE {{}, Universe(s), DOMAIN Shapes[s].mans, Shapes[s].blobs, Universe(s) \ {Shapes[s].root}}
 AllConfs ==
   {[shape |-> s, pair |-> p, mount |-> f.mount, headDigest |-> f.headDigest, refApiSrc |-> f.refApiSrc,
-    refApiTgt |-> f.refApiTgt, decline |-> f.decline, force |-> o.force, referrers |-> o.referrers, filter |-> o.filter,
+    refApiTgt |-> f.refApiTgt, decline |-> f.decline, leftover |-> f.leftover, force |-> o.force, referrers |-> o.referrers, filter |-> o.filter,
     dtags |-> o.dtags, inclext |-> o.inclext, fast |-> o.fast, plats |-> o.plats, refTgt |-> o.reftgt, init |-> i,
     tag0 |-> t,
     byDigest |-> b, tgtByDigest |-> d, maxFaults |-> MaxFaults, cancel |-> AllowCancel, crash |-> AllowCrash,
@@ -83,7 +85,7 @@ PMKind == {<<m, Kind(m)>> : m \in Mans} \cup {<<"OLDM", "image">>}
 PRefs == {[r |-> r[1], s |-> r[2], match |-> B(conf.filter = {} \/ r[3] \in conf.filter)] : r \in Sh.refs}
 PAliasSet == IF conf.refTgt THEN {<<"r/" \o n, n, "r/">> : n \in AllNodes \cup {"D:" \o m : m \in Mans}} ELSE {}
 PDTags == {[t |-> d[1], on |-> d[2], to |-> d[3], fb |-> 0] : d \in Sh.dtags} \cup
-          {[t |-> FbTag(f[2]), on |-> f[2], to |-> f[1], fb |-> 1] : f \in {f \in Sh.fbs : HasFB /\ f[2] \notin Sh.long}}
+          {[t |-> FbTag(f[2]), on |-> f[2], to |-> f[1], fb |-> B(~RefApiSrc)] : f \in {f \in Sh.fbs : HasFB /\ f[2] \notin Sh.long}}
 PInit0 == [b |-> InitB, m |-> InitM, x |-> {}, t |-> InitT]
 PCur == [b |-> tb, m |-> tm, x |-> {}, t |-> tt]
 RECURSIVE Rep(_, _)
@@ -131,12 +133,14 @@ MCOptsRefsOnly == {OptRefs}
 MCOptsRefs2 == {OptRefs, OptRefsSbom}
 MCOptsRefs3 == {OptRefsBoth, OptRefsTgt}
 MCOptsRefsBoth == {OptRefsBoth}
+MCOptsRefsDTags == {OptDTags, OptRefsDTags}
 MCOptsRefsTgt == {OptRefsTgt, OptRefsTgtForce}
 MCOptsNoRefs == {OptDefault, OptForce, OptFast, OptPlats, OptDTags, OptExt}
 MCOptsForce == {OptDefault, OptForce}
 MCOptsDTags == {OptDefault, OptDTags}
 MCFeatsDefault == {FeatAll}
 MCFeatsCore == {FeatAll, FeatNoRefApi}
+MCFeatsLeftover == {FeatAll, FeatLeftover}
 MCFeatsMount == {FeatAll, FeatNoMount}
 MCFeatsMount3 == {FeatAll, FeatNoMount, FeatDeclineOne}
 MCFeatsAll == {FeatAll, FeatNoMount, FeatNoHeadDigest, FeatNoRefApi, FeatNoRefApiTgt}
